@@ -14,6 +14,7 @@ EXPLANATION = (
     "accessor is reachable is dominated by features::init. R3: the value given to init derives from the parsed "
     "command line. Agreement of the sub-commands follows because they then compute the same function of the source "
     "under the same flag."
+    ' R1e also: the Err side of a stage result never reaches an Ok return of a Result-returning command. R2 also: a flag-reading closure is only handed to callees that run it on the initialising thread (core/alloc, std outside std::thread, hotwatch::blocking) unless it initialises the flag itself. R4: the text handed to the assembler is read from the path the command names (field, capture or parameter), not from a path computed elsewhere.'
 )
 NOT_DECIDED = "nothing of substance: the property is decided by R1-R3 (agreement = same stages, same flag)"
 
